@@ -393,10 +393,17 @@ func c13Logger(out *evid.Out, f *evid.Flags, clock *int64) {
 		lg := zerolog.Level(r.Intn(4) - 1)
 		gl := zerolog.Level(r.Intn(4) - 1)
 		zerolog.SetGlobalLevel(gl)
+		// a quarter of the runs attach their samplers while sampling is globally disabled: the switch acts when an event is
+		// logged, not when a logger is derived
+		if run%4 == 1 {
+			zerolog.DisableSampling(true)
+			out.Count("loggers_derived_while_sampling_disabled", 1)
+		}
 		l := zerolog.New(w).Level(lg).Sample(sm)
 		child := l.With().Str("c", "d").Logger() // shares the sampler
 		child2 := l.Output(w).Level(lg)          // still the same sampler
 		unsampled := l.Sample(nil)               // sampler removed
+		zerolog.DisableSampling(false)
 		now := int64(1)
 		nev := 60 + r.Intn(100)
 		disableFrom := nev
